@@ -60,6 +60,49 @@ def ih_recorded_value_is_a_copy(it: int, a: int) -> bool:
     return h["x"][it] == [a, [a]]
 
 
+def ih_setitem_column_is_a_deep_copy(a: int, b: int, n: int) -> bool:
+    """
+    pre: 1 <= n <= 3
+    post: __return__ == True
+    """
+    # a whole column (object array of mutable values, as record() itself re-assigns it) is stored as a deep copy
+    import numpy as np
+    h = IterationHistory(KEYS)
+    col = np.empty(n, dtype=object)
+    src = [[a, i] for i in range(n)]
+    for i in range(n):
+        col[i] = src[i]
+    h["x"] = col
+    src[n - 1].append(b)
+    col[0] = None
+    return all(h["x"][i] == [a, i] for i in range(n))
+
+
+def ih_update_operators_check_keys_and_copy(j: int, a: int, use_ior: bool) -> bool:
+    """
+    pre: 0 <= j < len(UNKNOWN)
+    post: __return__ == True
+    """
+    # update() and the in-place union operator obey the same key check and copy semantics as item assignment
+    h = IterationHistory(KEYS)
+    v = [a]
+    try:
+        if use_ior:
+            h |= {UNKNOWN[j]: v}
+        else:
+            h.update({UNKNOWN[j]: v})
+    except ValueError:
+        pass
+    else:
+        return False
+    if use_ior:
+        h |= {"x": v}
+    else:
+        h.update({"x": v})
+    v.append(a)
+    return len(h) == len(KEYS) and h["x"] == [a]
+
+
 def ih_setitem_unknown_key_rejected(j: int) -> bool:
     """
     pre: 0 <= j < len(UNKNOWN)
